@@ -71,7 +71,7 @@ def operand(e):
 def params(ps):
     out = []
     for p in ps:
-        s = p["n"]
+        s = ("vararg " if p.get("vararg") else "") + p["n"]
         if p.get("ty"):
             s += ": " + p["ty"]
         if p["d"]["k"] != "absent":
@@ -199,10 +199,11 @@ class R:
                     ps.append(p["c"] + ("(%s)" % ", ".join(expr(a) for a in p["args"]) if p["args"] else ""))
                 head += ": " + ", ".join(ps)
             self.emit(ind, head)
-            for j, f in enumerate(s["fields"]):
-                self.stmt(f, ind + 1, "%s.f%d" % (path, j))
-            for j, m in enumerate(s["methods"]):
-                self.stmt(m, ind + 1, "%s.m%d" % (path, j))
+            members = [("f%d" % j, f) for j, f in enumerate(s["fields"])] + [("m%d" % j, m) for j, m in enumerate(s["methods"])]
+            if s.get("order") == "mf":      # methods first in the source
+                members = [x for x in members if x[0][0] == "m"] + [x for x in members if x[0][0] == "f"]
+            for tag, m in members:
+                self.stmt(m, ind + 1, "%s.%s" % (path, tag))
         else:
             raise ValueError("cannot render statement kind %r" % k)
 
